@@ -1,7 +1,7 @@
 (* Run/Dispatch.v — one entry point for the extracted runner: kind + arguments -> rendered result.
    All kind-specific glue is here so the OCaml driver stays generic.  The only effectful thing in
    the runner is [oracle], a question/answer call-back answered by the Go standard library. *)
-From FDO Require Export Run.Sexp Rv.RvImpl Cose.Sign1 Kex.Crypter Kex.Kdf Svi.Chunk Cbor.RoundTripCheck.
+From FDO Require Export Run.Sexp Rv.RvImpl Cose.Sign1 Kex.Crypter Kex.Kdf Svi.Chunk Cbor.RoundTripCheck Fdo.Voucher.
 Local Open Scope N_scope.
 
 Definition unhexnum (b : bytes) : option N :=
@@ -309,6 +309,75 @@ Section Dispatch.
       end
     else None.
 
+  (* ---- ownership vouchers ---- *)
+  Definition O_hash (h : N) (m : bytes) : bytes :=
+    match unhex (oracle (s "hash "%bs ++ hexnum h ++ s " b:"%bs ++ hex m)) with Some x => x | None => [] end.
+
+  Definition words (b : bytes) : list bytes :=
+    let step := fun (acc : list bytes * bytes) (c : byte) =>
+      if byte_eqb c (byte_of_N 32) then (fst acc ++ [snd acc], []) else (fst acc, snd acc ++ [c]) in
+    let '(ws, last) := fold_left step b ([], []) in ws ++ [last].
+
+  (* pubkey <type> <enc> b:<raw body> -> "ec <n hex> <id hex>" | "rsa <id hex>" | "err" *)
+  Definition O_pubkey (pk : val) : option pubkey :=
+    match pk with
+    | VList [VInt t; VInt en; VRaw body] =>
+      match words (oracle (s "pubkey "%bs ++ hexnumZ t ++ sp ++ hexnumZ en ++ s " b:"%bs ++ hex body)) with
+      | [k; n; id] => if bytes_eqb k (s "ec"%bs)
+                      then match unhexnum n, unhex id with Some n', Some id' => Some (PubEC (N.to_nat n') id') | _, _ => None end
+                      else None
+      | [k; id] => if bytes_eqb k (s "rsa"%bs) then option_map PubRSA (unhex id) else None
+      | [k] => if bytes_eqb k (s "other"%bs) then Some PubOther else None
+      | _ => None
+      end
+    | _ => None
+    end.
+
+  Definition render_unit (o : outcome unit) : bytes :=
+    match o with Ok _ => s "ok"%bs | Err _ => s "err"%bs | Panic p => s "panic"%bs | OutOfFuel => s "oof"%bs end.
+  Definition render_key (o : outcome pubkey) : bytes :=
+    match o with
+    | Ok (PubEC n id) => s "ec:"%bs ++ hexnum (N.of_nat n) ++ s ":"%bs ++ hex id
+    | Ok (PubRSA id) => s "rsa:"%bs ++ hex id
+    | Ok PubOther => s "other"%bs
+    | _ => s "err"%bs
+    end.
+
+  Fixpoint entries_of (l : list val) : option (list entry) :=
+    match l with
+    | [] => Some []
+    | x :: r => match entry_of_val x, entries_of r with Some e', Some r' => Some (e' :: r') | _, _ => None end
+    end.
+
+  Definition chain_of (v : val) : option (option (list (option bytes))) :=
+    match v with
+    | VNull => Some None
+    | VList l => Some (Some (map (fun c => match c with VBytes d => Some d | _ => None end) l))
+    | _ => None
+    end.
+
+  Definition run_voucher (kind : bytes) (args : list arg) : option bytes :=
+    if bytes_eqb kind (s "voucher.verify"%bs) then
+      match args with
+      | [AB vb; AB secret; AZ kalg; AB kval] =>
+        match munmarshal ty_voucher vb with
+        | Ok (VList [_; hdr; hm; chain; VList ents]) =>
+          match entries_of ents, chain_of chain with
+          | Some es, Some ch =>
+            Some (s "ok hdr="%bs ++ render_unit (verify_header O_hmac secret hdr hm)
+                  ++ s " mfg="%bs ++ render_unit (verify_mfg_key O_hash hdr kalg kval)
+                  ++ s " cch="%bs ++ render_unit (verify_cert_chain_hash O_hash hdr ch)
+                  ++ s " entries="%bs ++ render_unit (verify_entries O_der O_rfc3339 O_verify O_hash O_pubkey hdr hm es)
+                  ++ s " owner="%bs ++ render_key (owner_key O_pubkey hdr es))
+          | _, _ => Some (s "err-shape"%bs)
+          end
+        | Ok _ => Some (s "err-shape"%bs)
+        | _ => Some (s "err-decode"%bs)
+        end
+      | _ => Some bad_args
+      end
+    else None.
+
   Definition dispatch (kind : bytes) (args : list arg) : bytes :=
     match run_cbor kind args with
     | Some r => r
@@ -327,7 +396,11 @@ Section Dispatch.
             | None =>
               match run_chunk kind args with
               | Some r => r
-              | None => s "unknown-kind"%bs
+              | None =>
+                match run_voucher kind args with
+                | Some r => r
+                | None => s "unknown-kind"%bs
+                end
               end
             end
           end
